@@ -32,6 +32,7 @@ var codePkgs = map[string]string{
 	"x/pnft/types":  "pnfttypes",
 	"x/pnft/keeper": "pnftkeeper",
 	"x/pnft":        "pnft",
+	"x/did":         "did",
 }
 
 // the state a package's keeper works on: the block's KV stores, or (x/burn, which only talks to x/bank) the bank model
@@ -180,6 +181,10 @@ func (g *cgen) leanType(t types.Type) string {
 	case *types.Map:
 		if isStringSet(u) {
 			return "(List Bytes)"
+		}
+		if isStringMap(u) {
+			// a Go map with string keys: its entries in *some* order (the theorems quantify over every order)
+			return "(Go.GoMap " + g.leanType(u.Elem()) + ")"
 		}
 		fail("type %s", t)
 	case *types.Pointer:
@@ -632,6 +637,12 @@ func (g *cgen) varInit(p *packages.Package, v *types.Var, init ast.Expr) string 
 
 func (c *fctx) composite(e *emitter, ind int, v *ast.CompositeLit) string {
 	t := c.info.TypeOf(v)
+	if isStringMap(t) {
+		if len(v.Elts) != 0 {
+			fail("non-empty map literal")
+		}
+		return "([] : " + c.g.leanType(t) + ")"
+	}
 	switch u := t.Underlying().(type) {
 	case *types.Slice:
 		var parts []string
@@ -730,6 +741,16 @@ func (c *fctx) selector(e *emitter, ind int, v *ast.SelectorExpr) string {
 }
 
 // map[string]struct{} is used as a set: modelled as the list of its members
+// isStringMap: map[string]T for a T that is not the empty struct
+func isStringMap(t types.Type) bool {
+	m, ok := t.Underlying().(*types.Map)
+	if !ok || isStringSet(t) {
+		return false
+	}
+	b, ok := m.Key().Underlying().(*types.Basic)
+	return ok && b.Kind() == types.String
+}
+
 func isStringSet(t types.Type) bool {
 	m, ok := t.Underlying().(*types.Map)
 	if !ok {
@@ -1469,6 +1490,9 @@ func (c *fctx) builtin(e *emitter, ind int, name string, call *ast.CallExpr, wan
 		if isStringSet(t) {
 			return []string{"([] : List Bytes)"}
 		}
+		if isStringMap(t) {
+			return []string{"([] : " + c.g.leanType(t) + ")"}
+		}
 		if _, ok := t.Underlying().(*types.Slice); !ok {
 			fail("make of %s", t)
 		}
@@ -1852,6 +1876,15 @@ func (c *fctx) assign(e *emitter, ind int, v *ast.AssignStmt) {
 		}
 	}
 	if len(v.Rhs) == 1 && len(v.Lhs) == 1 {
+		if ix, ok := v.Lhs[0].(*ast.IndexExpr); ok && isStringMap(c.info.TypeOf(ix.X)) {
+			id, ok := ix.X.(*ast.Ident)
+			if !ok {
+				fail("map that is not a local variable")
+			}
+			n := c.nameOf(c.info.ObjectOf(id))
+			e.add(ind, fmt.Sprintf("%s := Go.mapSet %s %s %s", n, n, c.expr(e, ind, ix.Index), c.expr(e, ind, v.Rhs[0])))
+			return
+		}
 		if ix, ok := v.Lhs[0].(*ast.IndexExpr); ok && isStringSet(c.info.TypeOf(ix.X)) {
 			id, ok := ix.X.(*ast.Ident)
 			if !ok {
@@ -1994,6 +2027,21 @@ func (c *fctx) rangeStmt(e *emitter, ind int, v *ast.RangeStmt) {
 		fail("range with assignment")
 	}
 	t := c.info.TypeOf(v.X)
+	if isStringMap(t) {
+		xs := c.expr(e, ind, v.X)
+		el := c.fresh("kv")
+		e.add(ind, fmt.Sprintf("for %s in %s do", el, xs))
+		if id, ok := v.Key.(*ast.Ident); ok && id.Name != "_" {
+			e.add(ind+1, fmt.Sprintf("let %s : Bytes := %s.1", c.nameOf(c.info.ObjectOf(id)), el))
+		}
+		if v.Value != nil {
+			if id, ok := v.Value.(*ast.Ident); ok && id.Name != "_" {
+				e.add(ind+1, fmt.Sprintf("let %s := %s.2", c.nameOf(c.info.ObjectOf(id)), el))
+			}
+		}
+		c.block(e, ind+1, v.Body.List)
+		return
+	}
 	if _, ok := t.Underlying().(*types.Slice); !ok {
 		fail("range over %s", t)
 	}
